@@ -123,7 +123,7 @@ RespTok(ev) == IF Len(ev.an) > 0 THEN ev.an[1].tok ELSE ev.soatok
 Shape(ev) == [rcode |-> ev.rcode, aa |-> ev.aa, tc |-> ev.tc, nan |-> ev.nan, nns |-> ev.nns,
               toks |-> [i \in 1..Len(ev.an) |-> <<ev.an[i].tok, ev.an[i].sub>>], soatok |-> ev.soatok]
 \* apart from ID and TTL ageing a cached response equals the response first relayed for that upstream answer
-UnchangedOk(ev) == RespTok(ev) = 0 \/ RespTok(ev) \notin DOMAIN seen \/ seen[RespTok(ev)] = Shape(ev)
+UnchangedOk(ev) == RespTok(ev) = 0 \/ RespTok(ev) \notin DOMAIN seen \/ seen[RespTok(ev)].shape = Shape(ev)
 
 AllStores == UNION {{stores[k][i] : i \in 1..Len(stores[k])} : k \in DOMAIN stores}
 \* a completed store for this request's key with more than 1 s of lifetime left and outside the refresh window
@@ -133,6 +133,20 @@ MustHitCandidates(s) == {st \in AllStores :
         /\ st.stored + 50 < s.t /\ s.t + 1000 + 50 < st.expire
         /\ 4 * (st.expire - s.t - 50) > (st.expire - st.stored)}
 MustHitOk(s, ev) == (cfg.cache /\ Supported(s) /\ MustHitCandidates(s) # {}) =>
+        (RespTok(ev) # 0 /\ RespTok(ev) \in DOMAIN upsent /\ upsent[RespTok(ev)].t < s.t)
+
+\* the same, seen from outside (no store hook): an upstream answer for this key was relayed to a client of the
+\* same group, is cacheable, and more than 1 s of its lifetime remains (and the refresh window has not begun):
+\* a store that silently failed or was skipped shows up as a repeat that is not served from the cache.
+\* (Stated "with ample capacity": only the scenarios without eviction pressure are checked against it.)
+RelayedLive(s) == {k \in DOMAIN seen :
+        /\ k \in DOMAIN upsent /\ seen[k].mark = Group(s.src)
+        /\ upsent[k].name = LowerName(s.name) /\ upsent[k].cls = s.cls /\ upsent[k].typ = s.typ
+        /\ upsent[k].kind = "reply" /\ ~upsent[k].tc
+        /\ LET L == LifetimeMs(upsent[k], cfg.maxttl) IN
+           /\ upsent[k].t + 150 < s.t /\ s.t + 1000 + 50 < upsent[k].t + L
+           /\ 4 * (upsent[k].t + L - s.t - 50) > L}
+MustHitBBOk(s, ev) == (cfg.cache /\ Supported(s) /\ RelayedLive(s) # {}) =>
         (RespTok(ev) # 0 /\ RespTok(ev) \in DOMAIN upsent /\ upsent[RespTok(ev)].t < s.t)
 
 KeyStores(s) == {st \in AllStores : st.name = LowerName(s.name) /\ st.cls = s.cls /\ st.typ = s.typ /\ st.mark = Group(s.src) /\ ~st.tc}
@@ -177,6 +191,7 @@ ClRecv == /\ IsEvent("cl.recv")
                                \cup (IF ExpiryOk(s, ev) THEN {} ELSE {"Inv_C08_Expiry"})
                                \cup (IF UnchangedOk(ev) THEN {} ELSE {"Inv_C07_Unchanged"})
                                \cup (IF MustHitOk(s, ev) THEN {} ELSE {"Inv_C07_MustHit"})
+                               \cup (IF MustHitBBOk(s, ev) THEN {} ELSE {"Inv_C07_MustHitRelayed"})
                                \cup (IF NoBadCacheOk(s, ev) THEN {} ELSE {"Inv_C08_NoBadCache"})
                                \cup (IF NoDisplaceOk(s, ev) THEN {} ELSE {"Inv_C08_NoDisplace"})
                                \cup (IF RefusedNotForwarded(s, ev) THEN {} ELSE {"Inv_C15_Refused"})
@@ -186,7 +201,7 @@ ClRecv == /\ IsEvent("cl.recv")
                                \cup (IF NoDelayOk(s, ev) THEN {} ELSE {"Inv_C19_NoDelay"})
                                \cup (IF RenewedOk(s, ev) THEN {} ELSE {"Inv_C19_Renewed"})))
              /\ answered' = answered \cup {ev.qn}
-             /\ seen' = IF ev.ok /\ RespTok(ev) # 0 /\ RespTok(ev) \notin DOMAIN seen THEN With(seen, RespTok(ev), Shape(ev)) ELSE seen
+             /\ seen' = IF ev.ok /\ RespTok(ev) # 0 /\ RespTok(ev) \notin DOMAIN seen THEN With(seen, RespTok(ev), [shape |-> Shape(ev), mark |-> Group(s.src)]) ELSE seen
           /\ UNCHANGED <<cfg, q, upsent, upq, stores, pf, fwd, outst, ladm>>
 
 \* no usable response: a violation for a decodable query (QR=0) unless the scenario says the
